@@ -87,6 +87,10 @@ def chk (c : Bool) (tag : String) : List String := if c then [] else [tag]
 /-- the pre-state as the transaction sees it: same data, the transaction's block -/
 def preAt (s : Step) : World := { s.pre with env := s.env }
 
+/-- the insurance fund / fee pool the engine is configured with when the transaction starts -/
+def ifd (s : Step) : Nat := s.pre.engine.cfg.insuranceFund
+def fpool (s : Step) : Nat := s.pre.engine.cfg.feePool
+
 /-- vAMMs wired to this engine before and after (re-wiring is outside every property) -/
 def wiredVamms (s : Step) : List (Nat × Vamm.V × Vamm.V) :=
   s.pre.vamms.filterMap (fun p =>
@@ -111,7 +115,7 @@ def C02.check (s : Step) : List String :=
 /-! ### C03: collateral conserved, permitted recipients only -/
 def C03.permitted (s : Step) : List Nat :=
   match s.tx with
-  | .engine _ => [s.sender, ENGINE, IFUND, FEEPOOL]
+  | .engine _ => [s.sender, ENGINE, ifd s, fpool s]
   | .fpSend _ _ to => [FEEPOOL, to]
   | .ifWithdraw _ => [IFUND, ENGINE]
   | .tokenTransfer to _ => [s.sender, to]
@@ -204,7 +208,16 @@ def C14.check (s : Step) : List String :=
   chk (s.post.ifund.vamms.length ≤ 3 && s.post.ifund.vamms.eraseDups.length == s.post.ifund.vamms.length)
     "registry-duplicates-or-over-capacity" ++
   (match s.tx with
-   | .ifShutdown => chk (!s.ok || s.pre.ifund.vamms.all (fun v => !isOpenV s.post v)) "shutdown-left-a-vamm-open"
+   | .ifShutdown =>
+     chk (!s.ok || s.pre.ifund.vamms.all (fun v => !isOpenV s.post v)) "shutdown-left-a-vamm-open" ++
+     -- the owner's shutdown must go through whatever state each (correctly wired) registered vAMM is in
+     (if !s.ok && s.sender == s.pre.ifund.owner && !s.pre.ifund.vamms.isEmpty
+         && s.pre.ifund.vamms.all (fun v => match s.pre.vamm? v with
+                                             | some x => x.cfg.insuranceFund == IFUND || x.cfg.owner == IFUND
+                                             | none => false)
+      then [if s.pre.ifund.vamms.any (fun v => !isOpenV s.pre v) then "shutdown-by-owner-failed[some-vamm-already-closed]"
+            else "shutdown-by-owner-failed"]
+      else [])
    | _ => [])
 
 /-! ### C16: after a liquidation, no second position action in the same block -/
@@ -253,23 +266,23 @@ def C12.fees (w : World) (v N : Nat) : Nat × Nat :=
 
 def C12.check (s : Step) : List String :=
   if !s.ok then [] else
-  let dFee := bal s.post FEEPOOL - bal s.pre FEEPOOL
+  let dFee := bal s.post (fpool s) - bal s.pre (fpool s)
   let dPrepaid : Int := (s.post.engine.st.prepaid : Int) - (s.pre.engine.st.prepaid : Int)
   match engineMsg s with
   | some (.openPosition v _ margin lev _) =>
     let N := margin * lev / s.pre.engine.cfg.decimals
     let (toll, spread) := C12.fees s.pre v N
     chk (dFee == (toll : Int)) "open-toll-not-exact" ++
-    chk (inflow s.xfers IFUND == (spread : Int)) "open-spread-not-exact" ++
-    chk ((s.xfers.filter (fun x => x.2.1 == FEEPOOL)).length == (if toll == 0 then 0 else 1)) "open-toll-charged-more-than-once" ++
-    chk (bal s.post IFUND - bal s.pre IFUND + dPrepaid == (spread : Int)) "open-insurance-fund-delta"
+    chk (inflow s.xfers (ifd s) == (spread : Int)) "open-spread-not-exact" ++
+    chk ((s.xfers.filter (fun x => x.2.1 == fpool s)).length == (if toll == 0 then 0 else 1)) "open-toll-charged-more-than-once" ++
+    chk (bal s.post (ifd s) - bal s.pre (ifd s) + dPrepaid == (spread : Int)) "open-insurance-fund-delta"
   | some (.closePosition v _) =>
     let p := pos s.pre v s.sender
     let whole := !hasPos s.post v s.sender
     let N := if whole then p.notional else quoteMoved s v
     let (toll, spread) := C12.fees s.pre v N
     chk (dFee == (toll : Int)) "close-toll-not-exact" ++
-    chk (inflow s.xfers IFUND == (spread : Int)) "close-spread-not-exact"
+    chk (inflow s.xfers (ifd s) == (spread : Int)) "close-spread-not-exact"
   | some (.depositMargin _ _) | some (.withdrawMargin _ _) | some (.payFunding _) | some (.liquidate _ _ _) =>
     chk (dFee == 0) "fee-charged-on-fee-free-operation"
   | _ => []
@@ -280,7 +293,7 @@ def C04.check (s : Step) : List String :=
   let ifDrain : List String :=
     match engineMsg s with
     | some (.openPosition _ _ _ _ _) | some (.closePosition _ _) | some (.depositMargin _ _) | some (.withdrawMargin _ _) =>
-      chk (bal s.pre IFUND - bal s.post IFUND ≤ (s.post.engine.st.prepaid : Int) - (s.pre.engine.st.prepaid : Int))
+      chk (bal s.pre (ifd s) - bal s.post (ifd s) ≤ (s.post.engine.st.prepaid : Int) - (s.pre.engine.st.prepaid : Int))
         "insurance-fund-drained-beyond-prepaid-bad-debt"
     | _ => []
   ifDrain ++
@@ -365,7 +378,7 @@ def C06.check (s : Step) : List String :=
        let equity := (p.margin : Int) + pnl - fundingOwed s.pre p
        let remaining : Int := if equity ≤ 0 then 0 else if equity ≥ fee then equity - fee else 0
        chk (flow s.xfers ENGINE s.sender == (fee : Int) || t == s.sender) "full-liquidation-fee-not-half-penalty" ++
-       chk (inflow s.xfers IFUND == remaining) "full-liquidation-remaining-margin-to-insurance-fund" ++
+       chk (inflow s.xfers (ifd s) == remaining) "full-liquidation-remaining-margin-to-insurance-fund" ++
        chk (t == s.sender || inflow s.xfers t == 0) "liquidated-trader-was-paid"
      else
        let a := p.size.toInt
@@ -373,7 +386,7 @@ def C06.check (s : Step) : List String :=
        chk (b.natAbs == a.natAbs - a.natAbs * s.pre.engine.cfg.plr / D) "partial-liquidation-size-not-the-fraction" ++
        chk (a * b > 0 || b == 0) "partial-liquidation-flipped-position" ++
        chk (flow s.xfers ENGINE s.sender == (fee : Int) || t == s.sender) "partial-liquidation-liquidator-share" ++
-       chk (inflow s.xfers IFUND == (fee : Int)) "partial-liquidation-insurance-share" ++
+       chk (inflow s.xfers (ifd s) == (fee : Int)) "partial-liquidation-insurance-share" ++
        chk (t == s.sender || inflow s.xfers t == 0) "liquidated-trader-was-paid")
   | _ => []
 
@@ -398,6 +411,7 @@ def C07.precondition (s : Step) (v t : Nat) : Bool :=
     let fee : Int := (feeN : Int)
     let need : Int := (if equity < 0 then -equity else 0) + fee + fee
     !p.size.isZero && x.st.isOpen && registered w v && fillable && inBand && w.engine.cfg.liqFee ≠ 0
+    && feeN ≠ 0
     && x.cfg.marginEngine == ENGINE && w.engine.cfg.insuranceFund == IFUND
     && bal w IFUND ≥ need
 
@@ -410,9 +424,10 @@ def C07.underMargined (s : Step) (v t : Nat) : Option Bool :=
 
 def C07.check (s : Step) : List String :=
   match engineMsg s with
-  | some (.liquidate v t _) =>
+  | some (.liquidate v t lim) =>
     if s.ok then [] else
-    if C07.precondition s v t && C07.underMargined s v t == some true then
+    -- a caller-supplied slippage limit may legitimately reject; the property is about limit-free calls
+    if lim == 0 && C07.precondition s v t && C07.underMargined s v t == some true then
       -- the oracle-priced ratio may lift the ratio above maintenance only when the spread limit is exceeded
       match liqRatio (preAt s) v t with
       | some r => if r < (s.pre.engine.cfg.mmr : Int) then ["liquidatable-position-could-not-be-liquidated"] else []
@@ -439,9 +454,9 @@ def C11.check (s : Step) : List String :=
         | _, _ => ["funding-settled-without-readable-twaps"]) ++
        (if payment > 0 then
           let amt : Int := if bal s.pre ENGINE < payment then bal s.pre ENGINE else payment
-          chk (s.xfers == [(ENGINE, IFUND, amt.toNat)]) "funding-payment-to-insurance-fund"
+          chk (s.xfers == [(ENGINE, ifd s, amt.toNat)]) "funding-payment-to-insurance-fund"
         else if payment < 0 then
-          chk (s.xfers == [(IFUND, ENGINE, payment.natAbs)]) "funding-payment-from-insurance-fund"
+          chk (s.xfers == [(ifd s, ENGINE, payment.natAbs)]) "funding-payment-from-insurance-fund"
         else chk (s.xfers == []) "funding-moved-collateral-with-zero-payment")
      | _, _ => ["payfunding-on-unknown-vamm"])
   | some (.openPosition v side margin lev _) =>
@@ -449,7 +464,8 @@ def C11.check (s : Step) : List String :=
     let p' := pos s.post v s.sender
     let D := s.pre.engine.cfg.decimals
     let cum := (Engine.latestCum s.pre.engine v).toInt
-    let sameSide := p.size.isZero || (p.direction == sideToDirection side)
+    -- an absent record takes its direction from the order; a stored one (even of size 0) keeps its own
+    let sameSide := !hasPos s.pre v s.sender || (p.direction == sideToDirection side)
     if sameSide then
       -- open / increase: margin grows by ⌊N·D/L⌋ minus the funding owed; checkpoint moves
       let N := margin * lev / D
@@ -465,8 +481,8 @@ def C11.check (s : Step) : List String :=
       let pnl : Int := match p.direction with
         | .addToAmm => out - p.notional
         | .removeFromAmm => (p.notional : Int) - out
-      chk (flow s.xfers ENGINE s.sender == (p.margin : Int) + pnl - fundingOwed s.pre p)
-        "funding-skipped-when-closing-by-reversal"
+      let equity := (p.margin : Int) + pnl - fundingOwed s.pre p
+      chk (equity < 0 || flow s.xfers ENGINE s.sender == equity) "funding-skipped-when-closing-by-reversal"
     else
       chk (p'.chk.toInt == cum) "checkpoint-not-moved-on-trade"
   | _ => []
@@ -498,8 +514,14 @@ def C15.check (s : Step) : List String :=
          else
            let a := p.size.toInt
            let b := (pos s.post v s.sender).size.toInt
-           chk (a.natAbs - b.natAbs == a.natAbs * s.pre.engine.cfg.plr / s.pre.engine.cfg.decimals && a * b > 0)
-             "partial-close-not-the-configured-fraction" ++
+           let want := a.natAbs * s.pre.engine.cfg.plr / s.pre.engine.cfg.decimals
+           let got := a.natAbs - b.natAbs
+           let dev := if got ≥ want then got - want else want - got
+           -- the close is priced in quote and re-quoted in base: one quote unit is base/quote base units
+           let roundingBound := x.st.base / x.st.quote + 2
+           chk (got == want && a * b > 0)
+             (if a * b > 0 && dev ≤ roundingBound then "partial-close-not-the-configured-fraction[within-requote-rounding]"
+              else "partial-close-not-the-configured-fraction[gross]") ++
            -- a partial close is only allowed when the whole close would have left the band
            (match Vamm.swapOutput x s.env ENGINE p.direction p.size.value 0 with
             | .ok (z, _) => chk (!Spec.C15.inside x.cfg.decimals bd z.st.quote z.st.base) "partial-close-although-whole-close-fits-band"
